@@ -94,7 +94,7 @@ func runC05(c *Ctx) {
 		// handle must call add on the internal set
 		ok := false
 		funcInstrs(handle, func(in ssa.Instruction) {
-			if cc := callOf(in); cc != nil && cc.StaticCallee() != nil && cc.StaticCallee().Name() == "add" {
+			if cc := callOf(in); cc != nil && cc.StaticCallee() != nil && cc.StaticCallee().Name() == c.nm("add") {
 				if fv, _ := loadedField(cc.Args[0]); fv == a.Int {
 					ok = true
 				}
@@ -102,7 +102,7 @@ func runC05(c *Ctx) {
 		})
 		r.Add("R2", "wrapper-target", c.Pos(handle.Pos()), c.FuncKey(handle), "the wrapper adds to the internal set", ok, "receiver of add")
 	}
-	g, _ := c.Client.Members["stHandlers"].(*ssa.Global)
+	g, _ := c.Client.Members[c.nm("stHandlers")].(*ssa.Global)
 	r.Anchor("R2", "stHandlers table", g != nil && len(a.StTable) > 0)
 	r.Floor("R2", "state-handler table entries", len(a.StTable), 13)
 	if g != nil {
